@@ -405,15 +405,31 @@ def _has_sym(x):
     return False
 
 
+class SymNd(_np.ndarray):
+    """object ndarray holding Sym values; `astype(float)` / `.real` keep the symbolic content (the real code uses them on
+    float arrays where they are no-ops)"""
+
+    def astype(self, dtype, *a, **k):
+        return self.copy()
+
+    @property
+    def real(self):
+        return self
+
+    @property
+    def imag(self):
+        return _np.zeros(self.shape)
+
+
 def symarray(vals):
-    a = _np.empty(len(vals), dtype=object)
+    a = _np.empty(len(vals), dtype=object).view(SymNd)
     for i, v in enumerate(vals):
         a[i] = v
     return a
 
 
 def _obj_full(shape, c):
-    a = _np.empty(shape, dtype=object)
+    a = _np.empty(shape, dtype=object).view(SymNd)
     a.fill(Sym.const(c))
     return a
 
@@ -627,6 +643,9 @@ def retarget(fn, extra=None, _memo=None, shim=None):
         if obj is None:
             continue
         if hasattr(obj, "py_func") and callable(obj):
+            g[name] = retarget(obj, extra, _memo, shim)
+        elif isinstance(obj, types.FunctionType) and str(getattr(obj, "__module__", "")).startswith("hiten."):
+            # plain-python callees of the library are retargeted too, so that overrides reach them
             g[name] = retarget(obj, extra, _memo, shim)
     g.update(extra)
     # numba.prange -> range when running the python body
